@@ -191,7 +191,14 @@ func newWorld(cfg map[string]int64, rec *kernel.Rec) (*world, error) {
 	w.vest = vestModel{enabled: cfg["vest_on"] == 1}
 	reward := sdk.NewCoins()
 	pool := sdk.NewCoins()
-	switch cfg["vest_kind"] % 4 {
+	switch cfg["vest_kind"] % 6 {
+	case 4:
+		// a denomination listed twice (parameter validation accepts it): the entries add up
+		reward = sdk.Coins{sdk.NewCoin(node.Denom, sdk.NewInt(700)), sdk.NewCoin(node.Denom, sdk.NewInt(600))}
+		pool = sdk.NewCoins(sdk.NewCoin(node.Denom, sdk.NewInt(20000+1300*(cfg["vest_pool"]%40)+cfg["vest_pool"]%7)))
+	case 5:
+		reward = sdk.Coins{sdk.NewCoin(node.Denom, sdk.NewInt(5)), sdk.NewCoin("coina", sdk.NewInt(2)), sdk.NewCoin(node.Denom, sdk.NewInt(3))}
+		pool = sdk.NewCoins(sdk.NewCoin(node.Denom, sdk.NewInt(900)), sdk.NewCoin("coina", sdk.NewInt(300)))
 	case 0:
 		reward = sdk.NewCoins(sdk.NewCoin(node.Denom, sdk.NewInt(1000)))
 		pool = sdk.NewCoins(sdk.NewCoin(node.Denom, sdk.NewInt(1000*(3+cfg["vest_pool"]%9)+cfg["vest_pool"]%7)))
